@@ -544,7 +544,9 @@ def filter_map(src_t, x, P, E, out_sort):
     """z3 Seq term for [E(x) for x in src if P(x)]"""
     P = z3.simplify(P) if not isinstance(P, bool) else z3.BoolVal(P)
     E = z3.simplify(E)
-    if z3.is_true(P) and (z3.eq(E, x) or _is_eta_hdr(E, x)):
+    if _is_eta_hdr(E, x):
+        E = x
+    if z3.is_true(P) and z3.eq(E, x):
         return src_t
     parts = _seq_parts(z3.simplify(src_t))
     if parts[0] == "concat":
